@@ -149,3 +149,20 @@ Proof.
   exists shared_cfP, kindsP, (fun _ => init_comp wbP), schedP, 0%nat.
   split; [intros a b H; exact H|]. split; [reflexivity|]. vm_compute. discriminate.
 Qed.
+
+(* ---- ... and so is the disjointness of the compilers: the property speaks of
+   DIFFERENT compiled workbooks.  Two threads with their own namespaces that
+   evaluate the same compiler: thread 1's whole evaluation inside thread 0's first
+   pass moves the cells thread 0 iterates on (11 passes instead of 12) ---- *)
+Definition shared_comp_cf : config := {| c_wb := fun _ => wbA; c_comp := fun _ => 0%nat; c_ns := fun t => t |}.
+Definition schedK : list nat := ([0; 0; 1; 1; 1] ++ repeat 0 25)%nat.
+Lemma shared_compiler_interferes :
+  exists cf kinds comps sched t,
+    (forall a b, a <> b -> c_ns cf a <> c_ns cf b) /\
+    c_comp cf 0%nat = c_comp cf 1%nat /\
+    result (run cf sched (fresh_process kinds comps)) t
+      <> result (run cf (only t sched) (fresh_process kinds comps)) t.
+Proof.
+  exists shared_comp_cf, two_kinds, (fun _ => init_comp wbA), schedK, 0%nat.
+  split; [intros a b H; exact H|]. split; [reflexivity|]. vm_compute. discriminate.
+Qed.
